@@ -131,7 +131,27 @@ int lp_polynomial_hash_set_search(lp_polynomial_t* const* data, size_t mask, con
   return 0;
 }
 
-#define SWAP(A, B) ({lp_polynomial_t *tmp = A; A = B; B = tmp;})
+/**
+ * Delete the element in slot i and close the gap (back-shift deletion for
+ * linear probing): an element further down the cluster is moved into the hole
+ * unless its home slot lies cyclically in (hole, its slot], in which case the
+ * hole is not on its probe path and it must stay.
+ */
+static
+void lp_polynomial_hash_set_remove_at(lp_polynomial_t** data, size_t mask, size_t i) {
+  lp_polynomial_delete(data[i]);
+  data[i] = 0;
+  size_t j = i;
+  for (;;) {
+    j = (j + 1) & mask;
+    if (data[j] == 0) break;
+    size_t k = lp_polynomial_hash(data[j]) & mask;
+    if (i <= j ? (i < k && k <= j) : (i < k || k <= j)) continue;
+    data[i] = data[j];
+    data[j] = 0;
+    i = j;
+  }
+}
 
 static
 int lp_polynomial_hash_set_search_and_remove(lp_polynomial_t** data, size_t mask, const lp_polynomial_t* p) {
@@ -142,14 +162,7 @@ int lp_polynomial_hash_set_search_and_remove(lp_polynomial_t** data, size_t mask
     i ++;
     i &= mask;
   }
-  lp_polynomial_delete(data[i]);
-  data[i] = 0;
-  for (;;) {
-    size_t j = (i + 1) & mask;
-    if (data[j] == 0 || (lp_polynomial_hash(data[j]) & mask) == j) break;
-    SWAP(data[i], data[j]);
-    i = j;
-  }
+  lp_polynomial_hash_set_remove_at(data, mask, i);
   return 1;
 }
 
@@ -261,15 +274,11 @@ void lp_polynomial_hash_set_intersect(lp_polynomial_hash_set_t* set, const lp_po
       continue;
     }
     if (!lp_polynomial_hash_set_contains(other, set->data[i])) {
-      lp_polynomial_delete(set->data[i]);
-      set->data[i] = NULL;
-      size_t k = i;
-      for (;;) {
-        size_t j = (k + 1) & mask;
-        if (set->data[j] == 0 || (lp_polynomial_hash(set->data[j]) & mask) == j) break;
-        SWAP(set->data[k], set->data[j]);
-        k = j;
-      }
+      // remove and look at the same slot again (an element may have moved in)
+      lp_polynomial_hash_set_remove_at(set->data, mask, i);
+      set->size --;
+    } else {
+      ++i;
     }
   }
 }
